@@ -65,10 +65,28 @@ def exhaustive(tier):
                 }
 
     yield ("all 64 subsets of the 6-key universe x 11 queries", gen())
+    yield ("deep chain of nested prefix keys (as deep as set() can build)", iter([{"deep": 1}]))
+
+
+def _run_deep(case, info):
+    from ..deepchain import build_chain
+
+    t, model, keys = build_chain(fan=True)
+    it = impl("construct", NodeIterator, t)
+    order = sorted(model)
+    expect_eq("keys-in-order-each-once", impl("keys", lambda: list(it.keys())), order, "keys() of the deep chain")
+    for q in keys[::17] + [keys[-1], keys[-1] + b"\x00", b""]:
+        want = next((k for k in order if k > q), None)
+        expect_eq("next-is-strict-successor", impl("next", it.next, q), want, f"next of a {len(q)}-byte key")
+    info.label("deep-chain")
+    info.nontrivial = len(keys) >= 100
+    return info
 
 
 def run_case(case):
     info = Info()
+    if "deep" in case:
+        return _run_deep(case, info)
     t = impl("construct", HexaryTrie, {})
     model = {}
     for k, vs in case["items"]:
